@@ -175,4 +175,91 @@
 #define os_atomic_rmw_loop_give_up(expr) \
 		os_atomic_rmw_loop_give_up_with_fence(relaxed, expr)
 
+#if DISPATCH_VERIF
+// Verification hooks (guard: DISPATCH_VERIF). Every atomic operation first
+// calls an optional callback so that an external scheduler can make it a
+// scheduling point; the operation itself is unchanged. The callback pointer
+// is NULL by default (see src/shims.c), which makes the hook a no-op.
+#ifdef __cplusplus
+extern "C" {
+#endif
+extern void (*_dispatch_verif_atomic_hook)(const volatile void *addr,
+		int kind, int order);
+extern void (*_dispatch_verif_spin_hook)(void);
+#ifdef __cplusplus
+}
+#endif
+#define _DISPATCH_VERIF_LOAD    0
+#define _DISPATCH_VERIF_STORE   1
+#define _DISPATCH_VERIF_XCHG    2
+#define _DISPATCH_VERIF_CMPXCHG 3
+#define _DISPATCH_VERIF_RMW     4
+#define _DISPATCH_VERIF_FENCE   5
+#define _dispatch_verif_point(p, k, m) \
+		(__builtin_expect(_dispatch_verif_atomic_hook != 0, 0) ? \
+		_dispatch_verif_atomic_hook((const volatile void *)(p), (k), \
+		(int)memory_order_##m) : (void)0)
+
+#undef os_atomic_load
+#define os_atomic_load(p, m) \
+		({ __typeof__(p) _dvf_p = (p); \
+		_dispatch_verif_point(_dvf_p, _DISPATCH_VERIF_LOAD, m); \
+		atomic_load_explicit(_os_atomic_c11_atomic(_dvf_p), \
+		memory_order_##m); })
+#undef os_atomic_store
+#define os_atomic_store(p, v, m) \
+		({ __typeof__(p) _dvf_p = (p); \
+		_dispatch_verif_point(_dvf_p, _DISPATCH_VERIF_STORE, m); \
+		atomic_store_explicit(_os_atomic_c11_atomic(_dvf_p), v, \
+		memory_order_##m); })
+#undef os_atomic_xchg
+#define os_atomic_xchg(p, v, m) \
+		({ __typeof__(p) _dvf_p = (p); \
+		_dispatch_verif_point(_dvf_p, _DISPATCH_VERIF_XCHG, m); \
+		atomic_exchange_explicit(_os_atomic_c11_atomic(_dvf_p), v, \
+		memory_order_##m); })
+#undef os_atomic_cmpxchg
+#define os_atomic_cmpxchg(p, e, v, m) \
+		({ __typeof__(p) _dvf_p = (p); \
+		_os_atomic_basetypeof(_dvf_p) _r = (e); \
+		_dispatch_verif_point(_dvf_p, _DISPATCH_VERIF_CMPXCHG, m); \
+		atomic_compare_exchange_strong_explicit( \
+		_os_atomic_c11_atomic(_dvf_p), \
+		&_r, v, memory_order_##m, memory_order_relaxed); })
+#undef os_atomic_cmpxchgv
+#define os_atomic_cmpxchgv(p, e, v, g, m) \
+		({ __typeof__(p) _dvf_p = (p); \
+		_os_atomic_basetypeof(_dvf_p) _r = (e); \
+		_dispatch_verif_point(_dvf_p, _DISPATCH_VERIF_CMPXCHG, m); \
+		_Bool _b = atomic_compare_exchange_strong_explicit( \
+		_os_atomic_c11_atomic(_dvf_p), \
+		&_r, v, memory_order_##m, memory_order_relaxed); *(g) = _r; _b; })
+#undef os_atomic_cmpxchgvw
+#define os_atomic_cmpxchgvw(p, e, v, g, m) \
+		({ __typeof__(p) _dvf_p = (p); \
+		_os_atomic_basetypeof(_dvf_p) _r = (e); \
+		_dispatch_verif_point(_dvf_p, _DISPATCH_VERIF_CMPXCHG, m); \
+		_Bool _b = atomic_compare_exchange_weak_explicit( \
+		_os_atomic_c11_atomic(_dvf_p), \
+		&_r, v, memory_order_##m, memory_order_relaxed); *(g) = _r;  _b; })
+#undef _os_atomic_c11_op
+#define _os_atomic_c11_op(p, v, m, o, op) \
+		({ __typeof__(p) _dvf_p = (p); \
+		_os_atomic_basetypeof(_dvf_p) _v = (v), _r; \
+		_dispatch_verif_point(_dvf_p, _DISPATCH_VERIF_RMW, m); \
+		_r = atomic_fetch_##o##_explicit(_os_atomic_c11_atomic(_dvf_p), _v, \
+		memory_order_##m); (__typeof__(_r))(_r op _v); })
+#undef _os_atomic_c11_op_orig
+#define _os_atomic_c11_op_orig(p, v, m, o, op) \
+		({ __typeof__(p) _dvf_p = (p); \
+		_dispatch_verif_point(_dvf_p, _DISPATCH_VERIF_RMW, m); \
+		atomic_fetch_##o##_explicit(_os_atomic_c11_atomic(_dvf_p), v, \
+		memory_order_##m); })
+#undef os_atomic_thread_fence
+#define os_atomic_thread_fence(m) \
+		({ _dispatch_verif_point(0, _DISPATCH_VERIF_FENCE, m); \
+		atomic_thread_fence(memory_order_##m); })
+#endif // DISPATCH_VERIF
+
+
 #endif // __DISPATCH_SHIMS_ATOMIC__
